@@ -305,6 +305,14 @@ class ScriptDiverged(Exception):
     pass
 
 
+class Runaway(BaseException):
+    """One plan_on call drew more samples than any terminating run on these instances can (<= 5 states, every
+    policy proper, at most 4000 trials): the run is cut and judged as not terminating."""
+
+
+MAX_SAMPLES = 300000
+
+
 def _proxy_classes():
     from msdm.core.distributions.distributions import FiniteDistribution
     from msdm.core.distributions import DictDistribution
@@ -392,6 +400,9 @@ class Recorder:
         self.snaps.append({"kind": kind, "keys": keys, "vals": vals, "solved": solved})
 
     def on_sample(self, key, base, rng):
+        self.nsamples = getattr(self, "nsamples", 0) + 1
+        if self.nsamples > MAX_SAMPLES:
+            raise Runaway()
         if key[0] == "init":
             self.snapshot("idle")
             want = (0, 0, 0)
@@ -462,6 +473,9 @@ def real_run(m, rep, *, script=None, seed=0, randomize=False, iterations=3000, l
         out["status"] = "diverged"
         out["why"] = str(e)
         return out
+    except Runaway:
+        out["status"] = "runaway"
+        return out
     except Exception as e:                       # noqa: BLE001 - judged as a failed termination clause
         out["status"] = "error"
         out["why"] = f"{type(e).__name__}: {e}"[:300]
@@ -528,6 +542,10 @@ def judge_run(ctx, m, run, jr, case, *, pyx=False, orc=None):
 
     if run["status"] == "error":
         fail("C04:LRTDP.plan_on:raises", f"plan_on raised {run['why']}")
+        return False
+    if run["status"] == "runaway":
+        fail("C04:LRTDP.lrtdp_trial:does-not-terminate",
+             f"plan_on drew more than {MAX_SAMPLES} samples on a {N}-state proper MDP without returning (cut by the harness)")
         return False
     # ---- clause 1: terminates with every initial state labelled
     # (entries of probability 0 in the listed initial support are not initial states)
@@ -800,6 +818,8 @@ def pipeline_mc(ctx, batch, reps, *, inject=None):
             ctx.skip("randomised action order: no seed among 96 reproduces the emitted orders")
             continue
         judge_run(ctx, m, run, jby.get(f"j{k}"), case, pyx=(k % 7 == 0), orc=orcs[r["iid"]])
+        if run["status"] != "ok":
+            continue
         why = same_final(m, run, r)
         if why is None:
             ctx.validated += 1
